@@ -20,3 +20,17 @@
   (ite ((_ is LNil) l) false
   (ite (= (hd l) VNil) (yamlEncErr c (tl l) k)
        (or (isErr (encE c (hd l) k)) (yamlEncErr c (tl l) (+ k 1))))))
+; Lines a reader may take for a document separator ("Streams"): only lines that cannot be part of a document.
+;   YAML: a document-start marker, "---" alone or followed by white space (YAML 1.2 c-document-start + separation):
+;         such a line is never content, so the encoder cannot have written it inside a document
+;   TOML: "---" or, as in front matter, "+++", alone or followed by white space only: never valid TOML (a bare key
+;         needs "="), so the encoder cannot have written it inside a document
+; (assumed about the encoders: they write valid documents of their format)
+(define-fun wsTail () RegLan (re.* (re.union (str.to_re " ") (str.to_re "\u{9}") (str.to_re "\u{d}"))))
+(define-fun tomlSepLine ((s String)) Bool
+  (str.in_re s (re.++ (re.union (str.to_re "---") (str.to_re "+++")) wsTail)))
+(define-fun yamlSepLine ((s String)) Bool
+  (or (= s "---") (str.prefixof "--- " s) (str.prefixof "---\u{9}" s) (str.prefixof "---\u{d}" s)))
+; reading a stream: every part between separator lines is decoded, in order, none skipped; the first failure is the error
+(define-fun-rec tomlDecE ((ps SLst)) Bool (ite ((_ is SNil) ps) false (or (isErr (tomlParseE (shd ps))) (tomlDecE (stl ps)))))
+(define-fun-rec tomlDecF ((ps SLst)) Lst (ite ((_ is SNil) ps) LNil (LCons (tomlParseF (shd ps)) (tomlDecF (stl ps)))))
